@@ -190,8 +190,8 @@ def run(chk):
                 "byte-by-byte and in a random split with empty pieces; all 2-splits of every length <= 130 (thorough 200); all 3-splits "
                 "of short and block-sized messages; boundary lengths 55/56/63/64/65/111/112/119/120/127/128/129... with cuts on the "
                 "block and padding boundaries and random k-splits; longer messages; HMAC with key lengths 0,1,block-1,block,block+1,"
-                "200,300 x boundary message lengths; public xmpp_sha1 API incl. to_string buffer sizes; thorough: >= 513 MiB streamed "
-                "in 1 MiB updates (C vs hashlib only). distinct non-trivial = distinct (algorithm, length, split) / input line")
+                "200,300 x boundary message lengths; public xmpp_sha1 API incl. to_string buffer sizes; 513 MiB streamed in 1 MiB updates "
+                "(crossing 2^32 bits; C vs hashlib only) for sha1/md5 in both tiers and for sha256/sha512 in the thorough tier. distinct non-trivial = distinct (algorithm, length, split) / input line")
     chk.assumptions = ["oracle: Python hashlib / hmac (OpenSSL) as the reference implementation of FIPS 180-4, RFC 1321, RFC 2104",
                        "the equality of each C compression routine (unrolled macros, in-place schedules) with the model's round-list "
                        "interpreter is tied by this correspondence run, not proved",
@@ -215,6 +215,14 @@ def run(chk):
         return res
 
     impl = run_balanced(exe)
+    # long streams: the split bit counters of SHA-1 / MD5 carry into count[1] / bits[1] at 2^32 bits = 512 MiB
+    # (implementation vs hashlib only; the model covers this by theorem). Cheap enough for the quick tier for
+    # the two algorithms that have a split counter; started now, collected after the model run.
+    mib = {alg: (513 if (thorough or alg in ("sha1", "md5")) else 3) for alg in ALGS}
+    longs = ["L %s %d %d" % (alg, mib[alg], chk.rng.randrange(256)) for alg in ALGS]
+    pool = ThreadPoolExecutor(max_workers=8)
+    long_out = [pool.submit(lambda l=l: vlib.run_lines(exe, [l], timeout=1500, per_case_timeout=1500)[0]) for l in longs]
+    long_exp = [pool.submit(oracle, l) for l in longs]
     model = None
     try:
         mexe = vlib.build_ocaml_model("C17")
@@ -235,20 +243,18 @@ def run(chk):
                 chk.disagree("digest", line, impl[i], model[i])
         if i % 4999 == 0:
             chk.sample({"input": line[:200], "impl": impl[i], "model": model[i] if model else None})
-    # long streams: the bit counters of SHA-1 / MD5 cross 2^32 bits at 512 MiB (implementation vs hashlib only;
-    # the model covers this by theorem)
-    mib = 513 if thorough else 3
-    longs = ["L %s %d %d" % (alg, mib, chk.rng.randrange(256)) for alg in ALGS]
-    with ThreadPoolExecutor(max_workers=4) as ex:
-        outs = list(ex.map(lambda l: vlib.run_lines(exe, [l], timeout=1500, per_case_timeout=1500)[0], longs))
-        exps = list(ex.map(oracle, longs))
-    for l, o, e in zip(longs, outs, exps):
+    for l, fo, fe in zip(longs, long_out, long_exp):
+        o, e = fo.result(), fe.result()
         chk.evaluations += 1
-        chk.count("long-stream-%dMiB" % mib)
+        chk.count("long-stream-%dMiB" % int(l.split(" ")[2]))
         chk.nontrivial.add(l)
         if o != e:
             chk.fail(l, "implementation returned %r, the standard demands %r" % (o, e))
+    pool.shutdown()
     chk.extra["long_stream_MiB"] = mib
+    # report the smallest failing input first (it becomes the replay case)
+    chk.failures.sort(key=lambda r: (len(r["case"]), r["case"]))
+    chk.disagreements.sort(key=lambda r: (len(r["case"]), r["case"]))
     try:
         os.remove(exe)
     except OSError:
